@@ -43,6 +43,14 @@ TNext ==
               IN /\ viol' = (IF bad = {} THEN viol ELSE viol \cup {<<l, "Otp", bad>>})
                  /\ Try(e.right)
                  /\ UNCHANGED <<ub, bvars>>
+         [] e.ev = "OtpParallel" ->
+              \* n submissions of one user's code at the same instant: the limiter evaluates at most one of them
+              LET bad == Failed({<<"G_C14_Spacing", e.accepted <= 1 /\ e.failCount <= 1>>,
+                                 <<"G_C14_OnlyRightCode", e.accepted > 0 => e.right>>,
+                                 <<"G_C14_NormalWorks", e.right => e.accepted >= 1>>,
+                                 <<"G_C10_NoPanic", ~e.panic>>})
+              IN /\ viol' = (IF bad = {} THEN viol ELSE viol \cup {<<l, "OtpParallel", bad>>})
+                 /\ UNCHANGED <<ub, bvars, ovars>>
          [] e.ev = "Wait" -> Wait(e.d) /\ UNCHANGED <<ub, viol, bvars>>
     /\ l' = l + 1
 TSpec == TInit /\ [][TNext]_<<bvars, ovars, l, viol, ub>>
